@@ -38,6 +38,10 @@ def inCallback (pc : Pc) : Bool := match pc with | .fCall _ => true | .bCall => 
 def firstIdleFrom (s : St) (from_ : Nat) : Option Nat :=
   (List.range s.thr.length).find? fun t => t ≥ from_ ∧ (s.thr[t]?.map (·.pc)) = some Pc.idle
 
+/-- the ghost lists `finished` / `lost` are used as multisets only: keep them sorted so that interleavings
+that differ only in the order of callback ends are one configuration -/
+def normGhost (s : St) : St := { s with finished := sortNat s.finished, lost := sortNat s.lost }
+
 /-- all successors by internal actions (what the goroutines do by themselves) -/
 def internalSucc (d : DCfg) (relAll : Bool) (s : St) : List St :=
   let idxs := List.range s.thr.length
@@ -53,7 +57,7 @@ def internalSucc (d : DCfg) (relAll : Bool) (s : St) : List St :=
           if d.auto then (step d.cfg s t (.cbEnd (d.pm > 0 ∧ th.reg.headD 0 % d.pm = 3))).toList
           else if relAll then (step d.cfg s t (.cbEnd false)).toList else []
         else []
-      taus ++ starts ++ confs ++ cbs
+      (taus ++ starts ++ confs ++ cbs).map normGhost
 
 /-- worklist closure up to quiescence; returns (quiescent states, fuel exhausted) -/
 def closure (succ : St → List St) : Nat → List St → List St → List St → List St × Bool
@@ -76,11 +80,11 @@ def insertStr (x : String) : List String → List String
 def sortStr (l : List String) : List String := l.foldr insertStr []
 
 /-- the visible part of a quiescent configuration, printed like the harness prints it -/
-def visible (d : DCfg) (finLen : Nat) (s : St) : String :=
+def visible (d : DCfg) (finSeen : List Nat) (s : St) : String :=
   let ws := (s.thr.take (d.P + 1)).map fun th => classOf th.pc
   let fls := sortStr (((s.thr.drop (d.P + 1)).filter fun th => th.pc ≠ .idle).map fun th => classOf th.pc)
   let cbs := sortStr ((s.thr.filter fun th => inCallback th.pc).map fun th => showList "." th.reg)
-  let nf := sortNat (s.finished.drop finLen)
+  let nf := sortNat (s.finished.filter fun x => !finSeen.contains x)
   s!"w={",".intercalate ws} fl={if fls.isEmpty then "-" else ",".intercalate fls} c={showList "," s.container} " ++
   s!"cmd={if s.commander.isSome then 1 else 0} inf={s.inflight} g={if s.guarded then 1 else 0} " ++
   s!"cb={if cbs.isEmpty then "-" else ";".intercalate cbs} nf={showList "," nf}"
@@ -88,15 +92,35 @@ def visible (d : DCfg) (finLen : Nat) (s : St) : String :=
 def parseNats (s : String) : List Nat :=
   if s = "-" then [] else (s.splitOn ",").filterMap String.toNat?
 
+def dedupSt (l : List St) : List St := l.foldl (fun acc s => if acc.contains s then acc else s :: acc) []
+
 def dedup (l : List St) : List St := l.foldl (fun acc s => if acc.contains s then acc else s :: acc) []
 
 structure DState where
   states : List St
-  finLen : Nat := 0
+  finSeen : List Nat := []
   mon    : Spec.Mon := {}
   dead   : Bool := false     -- the model lost track in this section (already reported)
 
 def fuel : Nat := 200000
+
+/-- end every callback that is running in `s` (the harness releases all gated callbacks at a quiescent point) -/
+def releaseAll (d : DCfg) (s : St) : St :=
+  (List.range s.thr.length).foldl (fun acc t =>
+    match acc.thr[t]? with
+    | some th => if inCallback th.pc then ((step d.cfg acc t (.cbEnd false)).map normGhost).getD acc else acc
+    | none => acc) s
+
+def anyCallback (s : St) : Bool := s.thr.any fun th => inCallback th.pc
+
+/-- what the harness's `drain` does: run to quiescence, release every gated callback, repeat -/
+def drainRounds (d : DCfg) : Nat → List St → List St × Bool
+  | 0, ss => (ss, true)
+  | n + 1, ss =>
+    let (q, ex) := closure (internalSucc d false) fuel ss [] []
+    if ex then (q, true)
+    else if q.any anyCallback then drainRounds d n (dedupSt (q.map fun s => if anyCallback s then releaseAll d s else s))
+    else (q, false)
 
 /-- apply the harness action of one line to one configuration: `none` = the model says "skip" -/
 def applyOp (d : DCfg) (s : St) : List String → Option (List St × Bool × String)
@@ -132,7 +156,7 @@ def applyOp (d : DCfg) (s : St) : List String → Option (List St × Bool × Str
       | some th => inCallback th.pc && th.reg.head? == some x
       | none => false
     if d.auto then none else
-    let s' ← step d.cfg s t (.cbEnd (how = "panic"))
+    let s' ← (step d.cfg s t (.cbEnd (how = "panic"))).map normGhost
     let (q, ex) := closure (internalSucc d false) fuel [s'] [] []
     pure (q, ex, "")
   | ["t+", n] => do
@@ -140,9 +164,9 @@ def applyOp (d : DCfg) (s : St) : List String → Option (List St × Bool × Str
     let s' ← step d.cfg s 0 (.advance n)
     pure ([s'], false, "")
   | ["drain"] => do
-    let (q1, ex1) := closure (internalSucc d true) fuel [s] [] []
+    let (q1, ex1) := drainRounds d 64 [s]
     let q1w := q1.filterMap fun s1 => step d.cfg s1 d.P .wait
-    let (q2, ex2) := closure (internalSucc d true) fuel q1w [] []
+    let (q2, ex2) := drainRounds d 64 q1w
     pure (q2, ex1 || ex2, "")
   | _ => none
 
@@ -200,7 +224,7 @@ def runLine (d : DCfg) (sec : Nat) (acc : Report × DState) (l : Line) : Report 
     | some (qs, ex, pre) =>
       exhausted := exhausted || ex
       for q in qs do
-        let v := pre ++ visible d ds.finLen q
+        let v := pre ++ visible d ds.finSeen q
         let v := if l.op = ["drain"] then v ++ " all=" ++ showList "," (sortNat q.finished) else v
         if v = impl then next := q :: next else sample := v
   next := dedup next
@@ -211,14 +235,14 @@ def runLine (d : DCfg) (sec : Nat) (acc : Report × DState) (l : Line) : Report 
     r := r.mismatch sec l.idx sample impl
     return (r, { ds with dead := true })
   if next.length > 1 then r := r.addCover "ambiguous-schedule"
-  let nfLen := (parseNats (kvStr l.obs "nf" "-")).length
+  let nfNow := parseNats (kvStr l.obs "nf" "-")
   -- coverage of model branches
   match next.head? with
   | some q =>
     if q.lost.length > 0 then r := r.addCover "panicked-batch"
     if q.spawn = 0 ∧ q.guarded = false ∧ q.added.length > 0 then r := r.addCover "model-flusher-quit"
   | none => pure ()
-  return (r, { ds with states := next, finLen := ds.finLen + (if impl = "skip" then 0 else nfLen) })
+  return (r, { ds with states := next, finSeen := if impl = "skip" then ds.finSeen else ds.finSeen ++ nfNow })
 
 def runSection (r : Report) (s : Section) : Report :=
   let d := mkCfg s.cfg
